@@ -293,6 +293,10 @@ impl<'a, MutexType: RawMutex> Drop
     }
 }
 
+#[cfg(kani)]
+#[path = "/verif/kani/event.rs"]
+mod kani_verif;
+
 // Export a non thread-safe version using NoopLock
 
 /// A [`GenericManualResetEvent`] which is not thread-safe.
